@@ -43,3 +43,35 @@ REVIEWED: dict[str, str] = {
         "mints variable names internal to the unification; the solution is a "
         "mapping to sets of tags",
 }
+
+
+# --- lookup that survives local renames -------------------------------------
+# The table above is written with the code's own variable names so that it
+# can be read next to the source; matching is done on the alpha-normalised
+# text (plain variables renamed v0, v1, ... in order of occurrence), and one
+# entry exempts exactly one site: a second iteration of the same shape in the
+# same function is not covered by the review and is reported.
+from collections import Counter as _Counter
+
+from pta.pat import alpha as _alpha
+
+_NORM: dict[str, list] = {}
+for _k, _v in REVIEWED.items():
+    _f, _t = _k.split("::", 1)
+    _NORM.setdefault(_f + "::" + _alpha(_t), []).append((_k, _v))
+
+
+class Reviewed:
+    def __init__(self):
+        self.used = _Counter()
+        self.matched: set[str] = set()
+
+    def lookup(self, site):
+        nk = site.func + "::" + _alpha(site.stmt_text)
+        entries = _NORM.get(nk, [])
+        i = self.used[nk]
+        if i < len(entries):
+            self.used[nk] += 1
+            self.matched.add(entries[i][0])
+            return entries[i][1]
+        return None
